@@ -285,6 +285,17 @@ func c07Run(c *Ctx) {
 			return []string{"--zz-sentinel-flag", "--zz-sentinel-flag"}, nil
 		}
 	}
+	if policy == "ignore" && (c.K/3)%3 == 2 {
+		// IgnoreUnknown outranks an installed handler: the token is passed through and the handler is not asked
+		b.P.UnknownOptionHandler = func(option string, arg flags.SplitArgument, a []string) ([]string, error) {
+			v, ok := arg.Value()
+			calls = append(calls, unkCall{option, v, ok, append([]string{}, a...)})
+			if len(a) > 0 {
+				return a[1:], nil
+			}
+			return a, nil
+		}
+	}
 	c.Case(func() interface{} {
 		return map[string]interface{}{"declaration": d.Describe(), "argv": fmt.Sprintf("%q", args), "intent": describeItems(d, items), "policy": policy, "unknown_token": tok, "context": cur.Name, "handler_mode": hmode}
 	})
@@ -335,6 +346,10 @@ func c07Run(c *Ctx) {
 		}
 		c.Held(cell, shape)
 	case "ignore":
+		if len(calls) > 0 {
+			c.Violate("ignore:handler-called", "IgnoreUnknown is set, yet the unknown-option handler was called %d times (first for %q)", len(calls), calls[0].Name)
+			return
+		}
 		if cluster {
 			// the side effects of the cluster's known members are unspecified, but the token itself must be passed
 			// through verbatim: model-free conservation (every returned/positional string is an input token)
